@@ -13,6 +13,9 @@ extern void METHOD_FN(const char *, size_t, const char *, size_t, uint8_t *, siz
 #ifndef DLOG
 #define DLOG 8
 #endif
+#ifndef UF_LOG_MAX
+#define UF_LOG_MAX 40
+#endif
 extern uint64_t vf_dk_key[], vf_dk_res[]; extern unsigned vf_dk_n;
 extern uint64_t vf_db_id[], vf_db_in[], vf_db_res[]; extern uint32_t vf_db_salt[]; extern unsigned vf_db_count[]; extern _Bool vf_db_dec[]; extern unsigned vf_db_n;
 
@@ -39,10 +42,15 @@ void harness(void)
   for (size_t j = 0; j < PLEN; j++) in_setting[j] = in_setting2[j] = PREFIX_STR[j];
   for (size_t j = 0; j < MAX_S; j++) {
     in_setting[PLEN + j] = nondet_char(); in_setting2[PLEN + j] = nondet_char();
-    if (j < in_slen) __CPROVER_assume(des_ch(in_setting[PLEN + j]) && des_ch(in_setting2[PLEN + j]));
+    if (j < in_slen) __CPROVER_assume(des_ch(in_setting[PLEN + j]) && des_ch(in_setting2[PLEN + j]));   /* base-64 alphabet */
   }
   in_setting[PLEN + in_slen] = in_setting2[PLEN + in_slen] = 0;
 
+#ifdef FIX_PLEN
+  in_plen = in_plen2 = FIX_PLEN; in_slen = FIX_SLEN;
+  for (size_t i = FIX_PLEN; i < MAX_P; i++) in_phrase[i] = in_phrase2[i] = 0;
+  in_setting[PLEN + in_slen] = in_setting2[PLEN + in_slen] = 0;
+#endif
 #ifdef NOFA_PHRASE
   for (size_t j = 0; j < PLEN + MAX_S + 1; j++) in_setting2[j] = in_setting[j];
   /* compare on the significant window: first SIG_BYTES bytes, 8th bit ignored (DES-based) */
@@ -66,6 +74,22 @@ void harness(void)
   METHOD_FN(in_phrase, in_plen, in_setting, PLEN + in_slen, (uint8_t *)o1, sizeof o1, s1, sizeof s1);
   METHOD_FN(in_phrase2, in_plen2, in_setting2, PLEN + in_slen, (uint8_t *)o2, sizeof o2, s2, sizeof s2);
 
+#ifdef NOFA_DIGEST
+  {
+    /* ideal-hash axiom for the digest model: absorb is injective in all its arguments and
+       each digest word determines the accumulator (instantiated on the applications made) */
+    extern uint64_t vf_ab_acc[], vf_ab_n[], vf_ab_w0[], vf_ab_w1[], vf_ab_res[], vf_out_acc[], vf_out_i[], vf_out_res[];
+    extern unsigned vf_ab_cnt, vf_out_cnt;
+    __CPROVER_assume(vf_ab_cnt <= UF_LOG_MAX && vf_out_cnt <= UF_LOG_MAX);
+    for (unsigned i = 0; i < UF_LOG_MAX; i++)
+      for (unsigned j = 0; j < UF_LOG_MAX; j++) {
+        if (i < j && j < vf_ab_cnt && vf_ab_res[i] == vf_ab_res[j])
+          __CPROVER_assume(vf_ab_acc[i] == vf_ab_acc[j] && vf_ab_n[i] == vf_ab_n[j] && vf_ab_w0[i] == vf_ab_w0[j] && vf_ab_w1[i] == vf_ab_w1[j]);
+        if (i < j && j < vf_out_cnt && vf_out_i[i] == vf_out_i[j] && vf_out_res[i] == vf_out_res[j])
+          __CPROVER_assume(vf_out_acc[i] == vf_out_acc[j]);
+      }
+  }
+#else
   /* ideal-cipher axiom, instantiated on the applications that occurred */
   __CPROVER_assume(vf_dk_n <= DLOG && vf_db_n <= DLOG);
   for (unsigned i = 0; i < DLOG; i++)
@@ -76,6 +100,7 @@ void harness(void)
       if (i < j && j < vf_db_n && vf_db_res[i] == vf_db_res[j])
         __CPROVER_assume(vf_db_id[i] == vf_db_id[j] && vf_db_salt[i] == vf_db_salt[j] && vf_db_in[i] == vf_db_in[j] &&
                          vf_db_count[i] == vf_db_count[j] && vf_db_dec[i] == vf_db_dec[j]);
+#endif
 
   if (o1[0] != '*' && o2[0] != '*') {
     _Bool same = 1;
